@@ -50,7 +50,8 @@ ITEMS = {
     "requires_dist": (["a>1", "b ; os_name=='x'", "foo[bar]>=1; python_version<'3'", "a @ http://x", "a", "A.b (>=1)"], ["a b", "=", "{x}", "", "a>1 ;", "a{"]),
     "provides_extra": (["a", "A_b", "x.y", "Foo--Bar", "a1"], ["a b", "-", "{", "a\n", "", "\u212a"]),
     "dynamic": (["Requires-Dist", "summary", "PLATFORM", "\u212aeywords", "License-File", "Dynamic", "classifier", "project-url"],
-                ["Name", "version", "bogus", "metadata-version", "L\u0130cense", "{field}", "license_file", "", "Metadata-Version", "platforms", "{"]),
+                ["Name", "version", "bogus", "metadata-version", "L\u0130cense", "{field}", "license_file", "", "Metadata-Version", "platforms", "{",
+                 "Cla\u00dfifier", "Licen\u017fe", "Require\u017f-Di\u017ft", "provide\u017f-extra", "\u017fummary", "cla\u017f\u017fifier"]),
     "license_files": (["LICENSE", "a/b.txt", "C:a", "a..b".replace("..", "."), "licenses/A B.txt", "a:b", ".", "{x}"],
                       ["../x", "a*", "/abs", "C:\\x", "a\\b", "a//b", "./a", "a/", "", "a..b", "C:/x", "//x/y", "*", "a/../b"]),
 }
